@@ -589,6 +589,34 @@ def gen_op(rnd, x, fields, ctx, tables, allow_nested=True, safe_only=False):
     return {"op": "del", "name": rnd.choice(names)}
 
 
+def closing_ops(rnd, x, fields, ctx, tables):
+    state = dict(public_attrs(x))
+    out = []
+    for fd in fields:
+        f = fd["field"]
+        kind = kind_of(f)
+        if not kind or fd["name"] not in state or inner_field(f, 0) is None or rnd.random() < 0.4:
+            continue
+        try:
+            content = E.reify(state[fd["name"]], S.struct_attrs)[1]
+            names = [m for m, _ in tables[kind]]
+            if kind == "dict":
+                k = gen_key(rnd, f, True, ctx, content)
+                v = gen_item(rnd, f, False, ctx)
+                cands = [("__setitem__", [k, v]), ("update", [("dict", [(k, v)])]), ("setdefault", [k, v])]
+            else:
+                v = gen_item(rnd, f, False, ctx, len(content))
+                cands = [("append", [v]), ("insert", [("int", len(content)), v]), ("extend", [("list", [v])]),
+                         ("__iadd__", [["x:iter", [v]]])]
+            cands = [c for c in cands if c[0] in names]
+            if cands:
+                m, args = rnd.choice(cands)
+                out.append({"op": "call", "name": fd["name"], "kind": kind, "method": m, "args": args})
+        except Exception:  # noqa  generator limitation
+            continue
+    return out
+
+
 def run_history(rnd, cast, ctx, tables, nops, mode, ops=None, kwargs=None, safe_only=False):
     """Generates (or, when ops is given, replays) a history on a fresh valid instance."""
     cls = ctx.classes[cast["name"]]
@@ -608,8 +636,22 @@ def run_history(rnd, cast, ctx, tables, nops, mode, ops=None, kwargs=None, safe_
     h.init = reify_state(x)
     handles = {} if mode == "reuse" else None
     i = 0
-    while (ops is None and i < nops) or (ops is not None and i < len(ops)):
-        op = ops[i] if ops is not None else scrub_op(gen_op(rnd, x, fields, ctx, tables, safe_only=safe_only))
+    closing = None
+    while True:
+        if ops is not None:
+            if i >= len(ops):
+                break
+            op = ops[i]
+        elif i < nops:
+            op = scrub_op(gen_op(rnd, x, fields, ctx, tables, safe_only=safe_only))
+        else:
+            # closing probes: after the history (failed operations included) every typed container field must still
+            # validate -- one mutator call with a corrupted argument per such field
+            if closing is None:
+                closing = [scrub_op(o) for o in closing_ops(rnd, x, fields, ctx, tables)]
+            if not closing:
+                break
+            op = closing.pop(0)
         i += 1
         pre_state = reify_state(x)
         before = snapshot(x, fnames)
@@ -638,7 +680,11 @@ def run_history(rnd, cast, ctx, tables, nops, mode, ops=None, kwargs=None, safe_
                                       "%s raised %s but the instance changed (%s differ)" % (op_src(op), out[1], ",".join(diff))))
                 h.cut = True
             if not allowed_exception(op, out, extra):
-                h.py_findings.append((idx, finding_key(op, "exception-class:" + out[1], tables, ctag),
+                ekey = finding_key(op, "exception-class:" + out[1], tables, ctag)
+                if out[1] == "InvalidOperation" and X.op_has_nonfinite(op):
+                    # NaN / infinity handed to a validator that compares it with a Decimal bound
+                    ekey = "C03/nonfinite-number/exception-class:InvalidOperation"
+                h.py_findings.append((idx, ekey,
                                       "%s raised %s, which is neither TypeError/ValueError nor the container's own "
                                       "IndexError/KeyError for this call" % (op_src(op), out[1])))
         else:
@@ -771,12 +817,42 @@ def emit_history(h, ctx):
         G.emit_table(tbl), h.cast["name"], emit_attrs(h.init), E.lst(["\n   " + s for s in steps]))
 
 
-def coq_header(ctx):
+def coq_header(ctx, names=None):
+    """Class definitions and environment.  names: the classes a shard needs (their ancestors, the classes their
+    fields refer to and the base classes are added); None = all."""
+    if names is None:
+        asts = list(ctx.asts)
+    else:
+        need = {c["name"] for c in S.Context.BASE}
+        todo = list(names)
+        while todo:
+            n = todo.pop()
+            if n in need:
+                continue
+            need.add(n)
+            c = ctx.ast(n)
+            if c.get("base"):
+                todo.append(c["base"])
+            todo += [r for fd in c["fields"] for r in refs_in(fd["field"])]
+        asts = [c for c in ctx.asts if c["name"] in need]
     lines = [HEADER]
-    for c in ctx.asts:
+    for c in asts:
         lines.append("Definition cd_%s : classdef := %s." % (c["name"], ctx.emit_classdef(c["name"])))
-    lines.append("Definition env0 : env := %s." % E.lst(["cd_%s" % c["name"] for c in ctx.asts]))
+    lines.append("Definition env0 : env := %s." % E.lst(["cd_%s" % c["name"] for c in asts]))
     return "\n".join(lines) + "\n"
+
+
+def refs_in(f):
+    out = []
+    if f.get("t") == "ref":
+        out.append(f["cls"])
+    for key in ("item", "kf", "vf"):
+        if isinstance(f.get(key), dict):
+            out += refs_in(f[key])
+    for key in ("items", "fs"):
+        for g in f.get(key) or []:
+            out += refs_in(g)
+    return out
 
 
 def evaluate(histories, ctx, tag="c03", per=40):
@@ -787,13 +863,15 @@ def evaluate(histories, ctx, tag="c03", per=40):
         items = [emit_history(h, ctx) for h in histories[s:s + per]]
         body = "Definition cases : list hcase := %s.\n" % E.lst(["\n " + i for i in items])
         body += "Eval vm_compute in (map (hist_mismatch env0) cases).\n"
-        body += "Eval vm_compute in (map (hist_spec_bad env0) cases).\n"
+        # the state clauses (valid after success, unchanged after a raise); the exception-class clause is judged on
+        # the Python side, where "the container's usual exception" is known from the base type's own behaviour
+        body += "Eval vm_compute in (map (hist_state_bad env0) cases).\n"
         body += "Eval vm_compute in (map (hist_nf_bad env0) cases).\n"
         body += "Eval vm_compute in (indices_where (fun h => negb (start_valid env0 h)) cases 0).\n"
         body += "Eval vm_compute in (indices_where (hyps_hold env0) cases 0).\n"
         body += "Eval vm_compute in (indices_where (theorem_contradicted env0) cases 0).\n"
-        shards.append(body)
-    res = core.eval_cases(shards, tag, coq_header(ctx))
+        shards.append(coq_header(ctx, {h.cast["name"] for h in histories[s:s + per]}) + body)
+    res = core.eval_cases(shards, tag, "")
     out = {"mismatch": {}, "spec_bad": {}, "nf_bad": {}, "start_invalid": [], "hyps": [], "contradicted": []}
     for si, (rc, so, se) in enumerate(res):
         vals = core.parse_eval(so)
@@ -1050,6 +1128,229 @@ def directed_extfields(rep):
     return n
 
 
+# ------------------------------------------------------------------ a hook that reads the containers
+
+HOOKC_SRC = """
+from typedpy import Structure, Array, Deque, Map, Integer, String
+from collections import deque
+class WHC(Structure):
+    a = Array[Integer]
+    d = Deque[Integer]
+    m = Map[String, Integer]
+    q = Integer
+    def __validate__(self):
+        for n in ('a', 'd', 'm'):
+            if len(self.__dict__.get(n, ())) > self.q:
+                raise ValueError('%s holds more than q entries' % n)
+"""
+
+
+def directed_container_hook(rep, tables):
+    """The class's __validate__ relates the SIZE of a typed container to another field (the model's hook language
+    has no such hook, so this stream is judged on the implementation alone).  A growing mutator with a valid item
+    is rejected by the hook (whether the instance changed then is the known hook-after-store defect); whatever
+    happened, the field must still be validated afterwards: an invalid item is rejected and changes nothing."""
+    ns = {}
+    exec(HOOKC_SRC, ns)
+    WHC = ns["WHC"]
+    grow = {"list": [("append", (2,)), ("extend", ([2, 3],)), ("insert", (0, 2)), ("__iadd__", ([2],)), ("__imul__", (2,)),
+                     ("__setitem__", (slice(1, 1), [2, 3]))],
+            "deque": [("append", (2,)), ("appendleft", (2,)), ("extend", ([2, 3],)), ("extendleft", ([2],)), ("insert", (0, 2)),
+                      ("__iadd__", ([2],)), ("__imul__", (2,))],
+            "dict": [("__setitem__", ("n", 2)), ("update", ({"n": 2},)), ("setdefault", ("n", 2)), ("__ior__", ({"n": 2},))]}
+    bad = {"list": [("append", ("x",)), ("__setitem__", (0, "x")), ("extend", (["x"],)), ("insert", (0, None))],
+           "deque": [("append", ("x",)), ("appendleft", (2.5,)), ("__setitem__", (0, "x")), ("extend", (["x"],))],
+           "dict": [("__setitem__", ("k", "x")), ("update", ({"k": 2.5},)), ("__setitem__", (5, 1)), ("setdefault", ("z", "x"))]}
+    fld = {"list": "a", "deque": "d", "dict": "m"}
+
+    def state(x):
+        return (list(x.a), list(x.d), dict(x.m), x.q, str(x))
+    for kind in ("list", "deque", "dict"):
+        names = {m for m, _ in tables[kind]}
+        for gm, gargs in grow[kind]:
+            if gm not in names:
+                continue
+            for bm, bargs in bad[kind]:
+                if bm not in names:
+                    continue
+                x = WHC(a=[1], d=collections.deque([1]), m={"k": 1}, q=1)
+                f = fld[kind]
+                before = state(x)
+                try:
+                    getattr(getattr(x, f), gm)(*gargs)
+                    r1 = None
+                except Exception as ex:  # noqa
+                    r1 = type(ex).__name__
+                mid = state(x)
+                rep.count("directed:container-hook", 1, (kind, gm, bm))
+                py = HOOKC_SRC + "x = WHC(a=[1], d=deque([1]), m={'k': 1}, q=1)\nfor call in (lambda: x.%s.%s(*%r), lambda: x.%s.%s(*%r)):\n" \
+                    "    try: call()\n    except Exception as e: print(type(e).__name__, e)\n    print(x)\n" % (f, gm, gargs, f, bm, bargs)
+                robj = {"stream": "container-hook", "python": py}
+                if r1 is not None and mid != before:
+                    rep.finding("C03/hook-after-store/%s.%s/changed-after-raise" % (kind, gm),
+                                "x.%s.%s%r raised %s (hook) but the instance changed: %s" % (f, gm, gargs, r1, mid[4]), robj)
+                try:
+                    getattr(getattr(x, f), bm)(*bargs)
+                    r2 = None
+                except Exception as ex:  # noqa
+                    r2 = type(ex).__name__
+                after = state(x)
+                if r2 is None:
+                    rep.finding("C03/after-hook-failure/%s/invalid-accepted" % kind,
+                                "after x.%s.%s%r (%s), x.%s.%s%r returned normally: the field is no longer validated; %s" % (
+                                    f, gm, gargs, "raised " + r1 if r1 else "returned", f, bm, bargs, after[4]), robj)
+                elif after != mid:
+                    rep.finding("C03/after-hook-failure/%s/changed-after-raise" % kind,
+                                "after x.%s.%s%r, x.%s.%s%r raised %s but the instance changed: %s" % (
+                                    f, gm, gargs, f, bm, bargs, r2, after[4]), robj)
+
+
+# ------------------------------------------------------------------ every exported Field class
+
+FIELD_ARG_CANDIDATES = ["", "items=Integer", "fields=[Integer, String]", "values=[1, 2, 'a']", "clazz=Inner", "maxlen=3",
+                        "items=[String, Integer]", "Inner"]
+
+
+def value_pool():
+    """(label, factory) -- factories, because generators / iterators are single use."""
+    import datetime as dt
+    import decimal as dc
+    lits = ["2020-01-31", "1999-12-01", "junk", "2020-13-45", "10:11:12", "00:00:00", "25:99:99", "noon",
+            "01/31/20 10:11:12", "12/01/99 00:00:00", "13/45/20 10:11:12", "127.0.0.1", "10.0.0.255", "999.1.1.1", "1.2.3",
+            "example.com", "my-host", "-bad-.com!", "a@b.cd", "a@b", '{"a": 1}', "[1, 2]", "{bad json", "abc", "", "a", "x" * 300,
+            0, 1, -1, 7, 2 ** 70, 2.5, -0.5, 1.0, True, False, None, [], [1], ["a", "b"], [1, "a"], {}, {"a": 1}, {1: "a"},
+            (1, "a"), ("a", 1), (), b"xy", complex(1, 2), float("nan")]
+    pool = [(repr(v)[:40], (lambda v=v: v)) for v in lits]
+    pool += [("Decimal('1.5')", lambda: dc.Decimal("1.5")), ("Decimal('2')", lambda: dc.Decimal("2")),
+             ("{1, 2}", lambda: {1, 2}), ("{'a'}", lambda: {"a"}), ("frozenset([1])", lambda: frozenset([1])),
+             ("deque([1, 2])", lambda: collections.deque([1, 2])), ("deque(['a'])", lambda: collections.deque(["a"])),
+             ("date(2020, 1, 31)", lambda: dt.date(2020, 1, 31)), ("datetime(2020, 1, 31, 10, 11, 12)", lambda: dt.datetime(2020, 1, 31, 10, 11, 12)),
+             ("time(10, 11, 12)", lambda: dt.time(10, 11, 12)), ("len", lambda: len), ("lambda: 1", lambda: (lambda: 1)),
+             ("(i for i in [1])", lambda: (i for i in [1])), ("ValueError('x')", lambda: ValueError("x")),
+             ("KeyError", lambda: KeyError), ("Color.RED", lambda: G.Color.RED), ("Size.M", lambda: G.Size.M),
+             ("object()", object)]
+    return pool
+
+
+def fieldclass_sources():
+    """(class name, field source) for every Field class typedpy exports that can be instantiated from a small set
+    of argument candidates -- found by introspection, not listed by hand."""
+    import typedpy
+    out = []
+    for name in sorted(dir(typedpy)):
+        obj = getattr(typedpy, name)
+        if not (isinstance(obj, type) and issubclass(obj, typedpy.Field)):
+            continue
+        for args in FIELD_ARG_CANDIDATES:
+            out.append((name, "%s(%s)" % (name, args)))
+    # a few parameterised forms of the fields whose checks run after the store
+    out += [("DateString", "DateString(date_format='%d/%m/%Y')"), ("TimeString", "TimeString()"),
+            ("DateField", "DateField(date_format='%d/%m/%Y')"), ("DateTime", "DateTime(datetime_format='%Y-%m-%d %H:%M')"),
+            ("String", "String(pattern='^[a-z]+$', maxLength=5)"), ("SizedString", "SizedString(maxlen=2)")]
+    return out
+
+
+def same_obj_state(a, b):
+    if set(a) != set(b):
+        return False
+    for k in a:
+        x, y = a[k], b[k]
+        if x is y:
+            continue
+        try:
+            if type(x) is not type(y) or not (x == y):
+                return False
+        except Exception:  # noqa
+            return False
+    return True
+
+
+def directed_fieldclasses(rep, limit_pairs=6):
+    """For EVERY exported field class: a structure with one such field, values the constructor accepts and values
+    it rejects (found by probing a fixed pool), and every assignment of a rejected value over an accepted one:
+    it must raise TypeError/ValueError and leave the instance as it was.  Catches a field that stores before it
+    checks, whatever field it is."""
+    import typedpy
+    ns = {}
+    exec("from typedpy import *\nfrom typedpy import Structure\nimport typedpy\n"
+         "class Inner(Structure):\n    a = Integer\n    _required = []\n", ns)
+    pool = value_pool()
+    seen_cls = set()
+    n = 0
+    for cname, src in fieldclass_sources():
+        csrc = "class T(Structure):\n    f = %s\n    _required = []\n" % src
+        try:
+            exec(csrc, ns)
+            T = ns["T"]
+            if "f" not in T.get_all_fields_by_name():
+                continue
+        except Exception:  # noqa  not constructible with these arguments
+            continue
+        if (cname, src) in seen_cls:
+            continue
+        good, bad = [], []
+        for label, mk in pool:
+            try:
+                T(f=mk())
+                good.append((label, mk))
+            except Exception:  # noqa
+                bad.append((label, mk))
+        if not good or not bad:
+            rep.stat("directed:field-classes", "no-accepted-or-no-rejected-value:" + cname)
+            continue
+        seen_cls.add((cname, src))
+        rep.stat("directed:field-classes", "class:" + cname)
+        for gl, gmk in good[:2]:
+            step = max(1, len(bad) // limit_pairs)
+            for bl, bmk in bad[::step][:limit_pairs + 2]:
+                try:
+                    x = T(f=gmk())
+                except Exception:  # noqa
+                    continue
+                before = (dict(x.__dict__), str(x))
+                try:
+                    twin_eq = (x == T(f=gmk()))
+                except Exception:  # noqa
+                    twin_eq = None
+                try:
+                    x.f = bmk()
+                    raised = None
+                except Exception as ex:  # noqa
+                    raised = E.exn_name(ex)
+                try:
+                    after = (dict(x.__dict__), str(x))
+                except Exception as ex:  # noqa
+                    after = ({"<str raises>": type(ex).__name__}, "")
+                n += 1
+                rep.count("directed:field-classes", 1, (src, raised or "accepted"))
+                py = ("from typedpy import *\nimport datetime, decimal, collections\n" + csrc +
+                      "x = T(f=%s)\ntry:\n    x.f = %s\nexcept Exception as e: print(type(e).__name__, e)\nprint(x)\n" % (gl, bl))
+                robj = {"stream": "fieldclasses", "field_class": cname, "field": src, "good": gl, "bad": bl, "python": py}
+                changed = not same_obj_state(before[0], after[0]) or before[1] != after[1]
+                if not changed and twin_eq is True:
+                    try:
+                        changed = not (x == T(f=gmk()))
+                    except Exception:  # noqa
+                        pass
+                if raised and changed:
+                    rep.finding("C03/setattr/%s/changed-after-raise" % cname,
+                                "with f = %s: x.f = %s raised %s but x now prints %s (was %s)" % (src, bl, raised, after[1], before[1]), robj)
+                if raised and raised not in ("TypeError", "ValueError", "InvalidStructureErr"):
+                    rep.finding("C03/setattr/%s/exception-class:%s" % (cname, raised),
+                                "with f = %s: x.f = %s raised %s" % (src, bl, raised), robj)
+                if raised is None:
+                    # accepted on assignment although the constructor rejects the same value
+                    try:
+                        T(f=bmk())
+                        ctor_rejects = False
+                    except Exception:  # noqa
+                        ctor_rejects = True
+                    if ctor_rejects and not isinstance(x.__dict__.get("f"), type(None)):
+                        rep.finding("C03/setattr/%s/accepted-what-the-constructor-rejects" % cname,
+                                    "with f = %s: x.f = %s returned normally, T(f=%s) raises" % (src, bl, bl), robj)
+    return n
+
+
 def lookalike_class():
     I = {"t": "num", "k": "Integer", "s": "Any"}
     F = {"t": "num", "k": "Float", "s": "Any"}
@@ -1134,6 +1435,71 @@ def directed_lookalike(ctx, tables, rep):
                         one({"op": "call", "name": name, "kind": "dict", "method": "update", "args": [], "kwargs": {k2[1]: x2}})
             for w in X.lookalikes(v, 8):
                 one({"op": "call", "name": name, "kind": "dict", "method": "update", "args": [w]})
+    return hs
+
+
+def lattice_class():
+    I = {"t": "num", "k": "Integer", "s": "Any"}
+    N10 = {"t": "num", "k": "Number", "s": "Any", "max": ("int", 10)}
+    I5 = {"t": "num", "k": "Integer", "s": "Any", "max": ("int", 5)}
+    S2 = {"t": "str", "max": 2}
+    Sx = {"t": "str"}
+    nosz = [None, None]
+    al = {"t": "allof", "fs": [I, N10]}
+    fields = [
+        ("i", I, ("int", 1)), ("p", {"t": "num", "k": "Integer", "s": "Positive", "mult": 2}, ("int", 2)),
+        ("b", {"t": "bool"}, ("bool", True)), ("s", S2, ("str", "a")),
+        ("al", al, ("int", 1)), ("al2", {"t": "allof", "fs": [N10, I]}, ("int", 1)),
+        ("ao", {"t": "anyof", "fs": [I5, S2]}, ("int", 1)), ("oo", {"t": "oneof", "fs": [I, N10]}, ("flt", 5, -1)),
+        ("nf", {"t": "not", "fs": [Sx]}, ("int", 1)),
+        ("lal", {"t": "seqeach", "k": "list", "item": al, "sz": nosz, "uniq": False}, ("list", [("int", 1)])),
+        ("dao", {"t": "seqeach", "k": "deque", "item": {"t": "anyof", "fs": [I5, S2]}, "sz": [1, 3], "uniq": True}, ("deque", [("int", 1)])),
+        ("mal", {"t": "mapkv", "kf": Sx, "vf": al, "sz": nosz}, ("dict", [(("str", "k"), ("int", 1))])),
+        ("lpo", {"t": "seqpos", "k": "list", "items": [al, S2], "sz": nosz, "uniq": False, "additional": False},
+         ("list", [("int", 1), ("str", "a")])),
+    ]
+    cast = {"name": "WV", "fields": [{"name": n, "field": f} for n, f, _ in fields], "required": [], "additional": False}
+    return cast, [(n, v) for n, _, v in fields]
+
+
+LATTICE = [("int", 0), ("int", 1), ("int", 12), ("int", -1), ("int", 4), ("flt", 5, -1), ("flt", 1, 0), ("str", "x"), ("str", "abc"),
+           ("none",), ("bool", True), ("dec", 1, 0), ("list", [("int", 12)]), ("dict", [(("str", "k"), ("int", 12))])]
+
+
+def directed_lattice(ctx, tables, rep):
+    """Small-scope enumeration: every value of a fixed lattice (numbers around the declared bounds, a float, a
+    Decimal, strings, None, True, containers) assigned to every field of a class whose fields include the multi-field
+    wrappers (AllOf / AnyOf / OneOf / NotField with options that accept-then-reject), alone and as items of typed
+    Array / Deque / Map fields -- by attribute assignment and through append / insert / item assignment / update."""
+    cast, start = lattice_class()
+    if "WV" not in ctx.classes and not add_class(ctx, cast):
+        return []
+    cast = ctx.ast("WV")
+    hs = []
+
+    def one(op):
+        h = run_history(None, cast, ctx, tables, 1, "reread", ops=[op], kwargs=start)
+        if h is not None and h.steps:
+            rep.count("directed:value-lattice", 0, (op["name"], op["op"], op.get("method"), h.steps[0]["out"][0]))
+            hs.append(h)
+
+    for name, v in start:
+        f = field_cast(cast["fields"], name)
+        kind = kind_of(f)
+        for y in LATTICE:
+            one({"op": "set", "name": name, "value": y})
+            if kind in ("list", "deque"):
+                one({"op": "set", "name": name, "value": (kind, list(v[1]) + [y])})
+                one({"op": "call", "name": name, "kind": kind, "method": "append", "args": [y]})
+                one({"op": "call", "name": name, "kind": kind, "method": "__setitem__", "args": [("int", 0), y]})
+                one({"op": "call", "name": name, "kind": kind, "method": "insert", "args": [("int", 0), y]})
+                one({"op": "call", "name": name, "kind": kind, "method": "extend", "args": [("list", [("int", 2), y])]})
+            if kind == "dict" and G.is_hashable(y):
+                one({"op": "set", "name": name, "value": ("dict", list(v[1]) + [(("str", "n"), y)])})
+                one({"op": "call", "name": name, "kind": "dict", "method": "__setitem__", "args": [("str", "k"), y]})
+                one({"op": "call", "name": name, "kind": "dict", "method": "update", "args": [("dict", [(("str", "n"), ("int", 2)), (("str", "o"), y)])]})
+                one({"op": "call", "name": name, "kind": "dict", "method": "setdefault", "args": [("str", "n"), y]})
+                one({"op": "call", "name": name, "kind": "dict", "method": "__setitem__", "args": [y, ("int", 2)]})
     return hs
 
 
@@ -1285,6 +1651,29 @@ def replay(obj):
         if not rep.violations:
             print("no clause of C03 fails on the DateString/TimeString inputs now")
         return 1 if rep.violations else 0
+    if obj.get("stream") == "container-hook":
+        rep = core.Report("C03", "quick")
+        rep.known = []
+        directed_container_hook(rep, WB.strict_tables())
+        hits = [v for v in rep.violations if v["key"] == obj.get("finding_key")]
+        for v in hits:
+            print("FAILS    :", v["key"], "-", v["what"])
+        if not hits:
+            print("the clause no longer fails")
+        print("required : every mutation raises leaving the instance unchanged, or succeeds leaving it valid -- also after a "
+              "mutation the class's __validate__ rejected")
+        return 1 if hits else 0
+    if obj.get("stream") == "fieldclasses":
+        rep = core.Report("C03", "quick")
+        rep.known = []
+        directed_fieldclasses(rep)
+        hits = [v for v in rep.violations if v["key"] == obj.get("finding_key")]
+        for v in hits:
+            print("FAILS    :", v["key"], "-", v["what"])
+        if not hits:
+            print("the clause no longer fails for field class %s on the probed values" % obj.get("field_class"))
+        print("required : an assignment the field rejects raises TypeError/ValueError and leaves the instance unchanged")
+        return 1 if hits else 0
     if "class" not in obj:
         print(json.dumps({k: obj[k] for k in obj if k != "python"}, indent=1, default=str)[:3000])
         print("this replay names a broken obligation, not a concrete input")
@@ -1393,6 +1782,9 @@ def run(rep, tier):
     for h in directed_nonatomic(ctx, tables, rep):
         all_histories.append(("directed:nonatomic-base", h))
     lap("directed:nonatomic-base")
+    for h in directed_lattice(ctx, tables, rep):
+        all_histories.append(("directed:value-lattice", h))
+    lap("directed:value-lattice")
     by_entry = {}
     for _, h in all_histories:
         if h.py_findings and h.steps and h.steps[0]["op"]["op"] == "call":
@@ -1418,6 +1810,8 @@ def run(rep, tier):
         if h is not None:
             all_histories.append(("directed:hooks", h))
     directed_extfields(rep)
+    directed_fieldclasses(rep)
+    directed_container_hook(rep, tables)
     for h in directed_nested(ctx, tables, rep):
         all_histories.append(("directed:nested", h))
     lap("directed:hooks+ext+nested")
